@@ -781,6 +781,9 @@ func SetConforms(typeCtx map[ast.Variable]ast.BaseTerm, left ast.BaseTerm, right
 	}
 	if leftTuple, ok := left.(ast.ApplyFn); ok && leftTuple.Function.Symbol == RelType.Symbol {
 		if rightTuple, ok := right.(ast.ApplyFn); ok && rightTuple.Function.Symbol == RelType.Symbol {
+			if len(leftTuple.Args) != len(rightTuple.Args) {
+				return false
+			}
 			for i, leftArg := range leftTuple.Args {
 				if !SetConforms(typeCtx, leftArg, rightTuple.Args[i]) {
 					return false
